@@ -648,6 +648,15 @@ def _from_str(ctx: Ctx) -> None:
            "n_bins := maximum of the bin column (validate then enforces "
            "contiguity, hence = number of bins)",
            construct="n_bins value")
+    from sa.checks.c19 import _parses_into_fresh
+    okp = _parses_into_fresh(fs)
+    ctx.ob("D4.2", fs, fs.node, okp,
+           "the text is parsed with the packing's dtype and the writer's "
+           "separator into a freshly created packing of the space's shape, "
+           "which is what is returned" if okp else
+           "from_str does not parse `np.fromstring(text, dtype=x.dtype, "
+           "sep=CSV_SEPARATOR).reshape(x.shape)` into a fresh packing that "
+           "it returns", construct="parse into a fresh packing")
     # same separator on both sides
     def seps(fi: FuncInfo) -> set[str]:
         out = set()
